@@ -141,6 +141,11 @@ def run_script(rp, script):
         s._named_envs.extend('env.%d' % e for e in it['envs'])
         for msg in it['unsched']:
             ts = [tasks[uid] for uid in msg if uid in tasks]
+            if ts and script.get('wire'):
+                # the task comes back as the executor publishes it: through the wire format of the message layer, in which
+                # the slots are plain dictionaries and lists
+                import radical.utils as ru
+                ts = [ru.serialize.from_msgpack(ru.serialize.to_msgpack(t)) for t in ts]
             if ts:
                 s._queue_unsched.put(ts if len(ts) > 1 else ts[0])
 
